@@ -4,7 +4,9 @@
 //! `bvh multi [c02|c06] --tier … --seed … --out …` = the registered run: corpus
 //! (/verif/corpus/multi/*.case), arithmetic lines, then 16 child processes (`multi shard k`) with the
 //! correspondence cases, the search cases and the scheduled-pool scenarios. `c02` / `c06` keep only
-//! that property's violation signatures. `bvh multi probe <d13|sticky|d16|d16grid|shortranges|q01|
+//! that property's violation signatures. `bvh multi c07` = the pool-through-the-production-submitter
+//! stage for C07 (sequences of failing and succeeding calls on one reused pool, one child process per
+//! group with a 6 s watchdog; signatures `multi:c07:*`; no correspondence lines). `bvh multi probe <d13|sticky|d16|d16grid|shortranges|q01|
 //! sized|lgwin>` prints the minimal defect reproductions (release and debug builds).
 //!
 //! Correspondence (driver protocol: lean/BV/Drive/Multi.lean): `max`, `maxmulti` against the real
@@ -479,6 +481,7 @@ fn beat() { BEAT.fetch_add(1, std::sync::atomic::Ordering::SeqCst); }
 
 /// the search-stage oracles for one case; returns the ample-buffer reference outcome
 fn search_case(c: &Case, rep: &mut Report, pool: &mut Pool, rng: &mut Rng) {
+    set_current(c.json("")); sync_partial(rep);
     let params = c.params();
     let input = c.input();
     let t = c.t;
@@ -583,6 +586,7 @@ fn search_case(c: &Case, rep: &mut Report, pool: &mut Pool, rng: &mut Rng) {
 
 /// correspondence lines for one (small) case
 fn corr_case(c: &Case, lines: &mut Vec<(String, String)>, rep: &mut Report, pool: &mut Pool, rng: &mut Rng) {
+    set_current(c.json("")); sync_partial(rep);
     let params = c.params();
     let input = c.input();
     let (t, n) = (c.t, c.n);
@@ -625,10 +629,12 @@ pub fn run_cmd(args: &Args) {
     let thorough = args.tier == "thorough";
     let seed = args.seed;
     if args.rest.get(0).map(|s| s.as_str()) == Some("shard") { return run_shard(args, args.rest[1].parse().unwrap()); }
+    if args.rest.get(0).map(|s| s.as_str()) == Some("c07") { return c07_parent(args); }
+    if args.rest.get(0).map(|s| s.as_str()) == Some("c07seq") { return c07_child(args, args.rest[1].parse().unwrap()); }
     // keep freed encoder tables in the heap: repeated mmap/munmap of 1–32 MB blocks (zero-fill page
     // faults) dominated the run time otherwise.  Allocation behaviour only; no effect on results.
     unsafe { extern "C" { fn mallopt(param: i32, value: i32) -> i32; } mallopt(-3, 32 << 20); mallopt(-1, 1 << 30); }
-    spawn_watchdog(args.out.clone());
+    spawn_watchdog(args.out.clone(), 600, "multi:hang");
     let t0 = std::time::Instant::now();
     let mut corr = Corr::new(&args.out);
     let mut rep = Report::default();
@@ -657,7 +663,7 @@ pub fn run_cmd(args: &Args) {
         let mut rng = Rng::new(seed ^ 0xA1);
         for k in 0..(if thorough { 20000 } else { 3000 }) {
             let t = rng.range(1, 16) as usize;
-            let n: usize = match k % 6 { 0 => rng.below(40) as usize, 1 => rng.below(1 << 20) as usize, 2 => (1usize << rng.range(10, 62)) + rng.below(3) as usize - 1, 3 => usize::MAX / t - rng.below(3) as usize, 4 => usize::MAX / t + 1 + rng.below(1000) as usize, _ => rng.next() as usize >> rng.below(64) };
+            let n: usize = match k % 6 { 0 => rng.below(40) as usize, 1 => rng.below(1 << 20) as usize, 2 => (1usize << rng.range(10, 62)) + rng.below(3) as usize - 1, 3 => usize::MAX / t - rng.below(3) as usize, 4 => (usize::MAX / t).wrapping_add(1 + rng.below(1000) as usize), _ => rng.next() as usize >> rng.below(64) };
             let i = rng.below(t as u64) as usize;
             let (lo, hi) = get_range(i, t, n);
             corr.case(&format!("multi rangew {} {} {}", i, t, n), &format!("ok {} {}", lo, hi));
@@ -700,14 +706,39 @@ pub fn run_cmd(args: &Args) {
     rep.write(&args.out);
 }
 
-fn spawn_watchdog(out: std::path::PathBuf) {
-    std::thread::spawn(move || { let mut last = 0; let mut idle = 0; loop { std::thread::sleep(std::time::Duration::from_secs(2)); let b = BEAT.load(std::sync::atomic::Ordering::SeqCst); if b == last { idle += 1; if idle > 90 { let mut rep = Report::default(); rep.violation("multi:hang", "no CompressMulti call returned for 180 s (a join that never returns?)", "{}".into()); rep.write(&out); std::process::exit(0); } } else { idle = 0; last = b; } } });
+static CURRENT: std::sync::Mutex<String> = std::sync::Mutex::new(String::new());
+fn sync_partial(rep: &Report) { if let Ok(mut g) = PARTIAL.lock() { *g = rep.violations.iter().map(|v| (v.signature.clone(), v.what.clone(), v.case.clone())).collect(); } }
+fn set_current(c: String) { if let Ok(mut g) = CURRENT.lock() { *g = c; } }
+/// violations recorded so far by a child that may be stopped by its watchdog (signature, what, case)
+static PARTIAL: std::sync::Mutex<Vec<(String, String, String)>> = std::sync::Mutex::new(Vec::new());
+
+/// a stalled child is an observation (`sig`), reported with the case that was running, after
+/// `idle_secs` without a finished CompressMulti call; the process then exits (fail fast)
+fn spawn_watchdog(out: std::path::PathBuf, idle_secs: u64, sig: &'static str) {
+    std::thread::spawn(move || {
+        let mut last = 0; let mut idle = 0;
+        loop {
+            std::thread::sleep(std::time::Duration::from_secs(1));
+            let b = BEAT.load(std::sync::atomic::Ordering::SeqCst);
+            if b == last {
+                idle += 1;
+                if idle > idle_secs {
+                    let mut rep = Report::default();
+                    if let Ok(g) = PARTIAL.lock() { for (a, b, c) in g.iter() { rep.violation(a, b, c.clone()); } }
+                    let cur = CURRENT.lock().map(|g| g.clone()).unwrap_or_default();
+                    rep.violation(sig, &format!("no CompressMulti call returned for {} s (a join that never returns / a stuck pool)", idle_secs), if cur.is_empty() { "{}".into() } else { cur });
+                    rep.write(&out);
+                    std::process::exit(0);
+                }
+            } else { idle = 0; last = b; }
+        }
+    });
 }
 
 fn run_shard(args: &Args, task: usize) {
     let thorough = args.tier == "thorough";
     let seed = args.seed;
-    spawn_watchdog(args.out.clone());
+    spawn_watchdog(args.out.clone(), if thorough { 90 } else { 25 }, "multi:hang");
     let mut corr = Corr::new(&args.out);
     let mut rep = Report::default();
     let ncorr = if thorough { 1600 } else { 224 };
@@ -795,6 +826,7 @@ fn sched_run(params: &BrotliEncoderParams, input: &[u8], t: usize, cap: usize, w
 }
 
 fn large_case(c: &Case, rep: &mut Report, pool: &mut Pool) {
+    set_current(c.json("")); sync_partial(rep);
     let (params, input) = (c.params(), c.input());
     let bound = BrotliEncoderMaxCompressedSizeMulti(c.n, c.t);
     rep.evaluations += 1; rep.nontrivial += 1;
@@ -818,4 +850,105 @@ fn large_case(c: &Case, rep: &mut Report, pool: &mut Pool) {
     if runs.iter().all(|o| o.class != "panic") && !(runs[0].class == runs[1].class && runs[0].bytes == runs[1].bytes && runs[1].class == runs[2].class && runs[1].bytes == runs[2].bytes) {
         rep.violation("multi:spawner-differs", "thread-per-job / inline / reused pool disagree on a large input", c.json(""));
     }
+}
+
+// ---------------------------------------------------------------------------------------------
+// stage `multi c07`: C07's clauses (every job joined exactly once, nothing left in the pool's
+// 16-slot queues, no deadlock, pool reusable and droppable) seen through the PRODUCTION submitter:
+// sequences of 3–8 CompressMulti calls on ONE reused pool through the real compress_worker_pool,
+// mixing calls that fail (output buffer too small: the first / a middle / the last job's splice
+// fails, or finish fails) with calls that succeed.  One child process per group of sequences, each
+// with a watchdog, so a hang costs seconds.
+// ---------------------------------------------------------------------------------------------
+
+fn c07_parent(args: &Args) {
+    let nkids = 16usize;
+    let exe = std::env::current_exe().unwrap();
+    let corr = Corr::new(&args.out);
+    let mut rep = Report::default();
+    let mut kids = vec![];
+    for k in 0..nkids {
+        let d = args.out.join(format!("c07-{}", k));
+        std::fs::create_dir_all(&d).unwrap();
+        kids.push((k, d.clone(), std::process::Command::new(&exe).args(["multi", "--tier", &args.tier, "--seed", &args.seed.to_string(), "--out", d.to_str().unwrap(), "c07seq", &k.to_string()]).spawn().unwrap()));
+    }
+    let deadline = std::time::Instant::now() + std::time::Duration::from_secs(if args.tier == "thorough" { 240 } else { 45 });
+    for (k, d, mut kid) in kids {
+        let ok = loop { match kid.try_wait() { Ok(Some(st)) => break st.success(), Ok(None) => { if std::time::Instant::now() > deadline { let _ = kid.kill(); break false; } std::thread::sleep(std::time::Duration::from_millis(50)); } Err(_) => break false } };
+        if let Ok(r) = std::fs::read_to_string(d.join("report.tsv")) { rep.merge_tsv(&r); }
+        else if !ok { rep.violation("multi:c07:hang", "a group of pool sequences neither finished nor was stopped by its watchdog (process killed)", format!("{{\"group\":{}}}", k)); }
+        if !ok && std::fs::metadata(d.join("report.tsv")).is_ok() { rep.violation("multi:c07:crash", "a group of pool sequences crashed the process", format!("{{\"group\":{}}}", k)); }
+        let _ = std::fs::remove_dir_all(&d);
+    }
+    corr.finish();
+    rep.write(&args.out);
+}
+
+fn c07_child(args: &Args, group: usize) {
+    let thorough = args.tier == "thorough";
+    spawn_watchdog(args.out.clone(), 6, "multi:c07:hang");
+    let mut rep = Report::default();
+    let nseq = if thorough { 40 } else { 4 };
+    for k in 0..nseq {
+        let mut rng = Rng::new(args.seed ^ 0xC07 ^ ((group as u64) << 20) ^ ((k as u64) << 36));
+        c07_sequence(&mut rng, &mut rep);
+        sync_partial(&rep);
+    }
+    rep.write(&args.out);
+}
+
+fn c07_sequence(rng: &mut Rng, rep: &mut Report) {
+    let workers = *rng.pick(&[1usize, 2, 3, 4, 8, 15, 16]);
+    let ncalls = rng.range(3, 8) as usize;
+    let mut log: Vec<String> = vec![];
+    let mut failed_before = false;
+    rep.evaluations += 1; rep.nontrivial += 1;
+    rep.count("c07.sequences");
+    let case = |log: &Vec<String>| format!("{{\"workers\":{},\"calls\":[{}]}}", workers, log.join(","));
+    set_current(case(&log));
+    let pool: &'static mut Option<Pool> = Box::leak(Box::new(Some(brotli::enc::new_work_pool(workers))));
+    for ci in 0..ncalls {
+        let t = match rng.below(4) { 0 => rng.range(9, 16), 1 => 16, _ => rng.range(2, 8) } as usize;
+        let n = rng.range(t as u64 * 8, 3000) as usize;
+        let c = Case { q: *rng.pick(&[2, 4, 5, 6]), lgwin: *rng.pick(&[10, 16, 18, 22]), large: false, favor: rng.chance(1, 3), catable: false, appendable: false, magic: rng.chance(1, 4), t, n, kind: rng.below(5), dseed: rng.next(), size_hint: 0 };
+        let (params, input) = (c.params(), c.input());
+        let bound = BrotliEncoderMaxCompressedSizeMulti(n, t);
+        let reference = run_multi(Spawner::Inline, &params, &input, t, bound, None);
+        beat();
+        if reference.class != "ok" { continue; }
+        let l = reference.bytes.len();
+        // where the failure strikes: per-job prefix sums of the recomputed job outputs
+        let jobs = recompute_jobs(&params, &input, t);
+        let pre: Vec<usize> = jobs.iter().scan(0usize, |a, j| { *a += j.bytes.as_ref().map(|b| b.len()).unwrap_or(0); Some(*a) }).collect();
+        // mostly failing calls, interleaved with succeeding ones; the last call always succeeds
+        let mode = if ci + 1 == ncalls { 0 } else { rng.below(6) };
+        let (cap, what) = match mode {
+            0 | 1 => (bound, "ample"),
+            2 => (rng.below((pre[0] / 2).max(1) as u64) as usize, "first-job-fails"),
+            3 => { let j = t / 2; (pre[j - 1] + rng.below(3) as usize, "middle-job-fails") }
+            4 => (pre[t - 2] + rng.below(3) as usize, "last-job-fails"),
+            _ => (l - 1, "finish-fails"),
+        };
+        log.push(format!("{{\"threads\":{},\"input_len\":{},\"quality\":{},\"lgwin\":{},\"input_kind\":{},\"input_seed\":{},\"out_capacity\":{},\"intent\":\"{}\"}}", t, n, c.q, c.lgwin, c.kind, c.dseed, cap, what));
+        set_current(case(&log));
+        let o = run_multi(Spawner::PoolFresh, &params, &input, t, cap, pool.as_mut());
+        beat();
+        rep.count(&format!("c07.call.{}", what));
+        rep.count(&format!("c07.result.{}", if o.class == "ok" { "ok" } else if o.class == "panic" { "panic" } else { "err" }));
+        if o.class == "panic" { rep.violation("multi:c07:panic", &format!("call {} on the reused pool panicked: {}", ci, o.msg), case(&log)); return; }
+        if !o.returned { rep.violation("multi:c07:input-not-returned", &format!("call {} did not hand the input back ({})", ci, o.class), case(&log)); }
+        if o.class == "ok" {
+            if o.bytes != reference.bytes { rep.violation("multi:c07:ok-wrong-data", &format!("call {} on the reused pool{} returned bytes that differ from the inline spawner's", ci, if failed_before { " (after failed calls)" } else { "" }), case(&log)); }
+            else if let Err(e) = decode_ok(&o.bytes, false, &input) { rep.violation("multi:c07:ok-wrong-data", &format!("call {}: {}", ci, e), case(&log)); }
+            else { rep.count("c07.decoded"); if failed_before { rep.count("c07.ok_after_failure"); } }
+        } else {
+            failed_before = true;
+            if cap >= bound { rep.violation("multi:c07:sized-call-failed", &format!("call {} with a buffer of the advertised bound failed ({}){}", ci, o.class, if log.len() > 1 { " on a pool that served earlier calls" } else { "" }), case(&log)); }
+        }
+    }
+    // the pool must drop cleanly (all workers exit; a stuck worker trips the watchdog)
+    let d = catch_unwind(AssertUnwindSafe(|| drop(pool.take())));
+    beat();
+    if d.is_err() { rep.violation("multi:c07:drop-panic", "dropping the pool panicked (a worker died)", case(&log)); } else { rep.count("c07.dropped_cleanly"); }
+    set_current(String::new());
 }
